@@ -541,7 +541,7 @@ Section SerdeProof.
     Variable order : list K.
     Hypothesis HI : Inv h.
     Hypothesis HG : GraphOK h g.
-    Hypothesis HC : Closed h g.
+    Hypothesis HC : ClosedOut h g.
     Hypothesis HO : OrderOK g order.
 
     Let ms := g_iter keqb g order.
@@ -603,7 +603,7 @@ Section SerdeProof.
     Lemma target_key m p : In m (members g) -> In p (outs h m) ->
       exists kv, In (kv, fst p) g /\ keyof h (fst p) = Some kv.
     Proof.
-      intros Hm Hp. apply member_key. destruct p as [v e]. destruct (HC m Hm) as [H1 _]. now apply H1 in Hp.
+      intros Hm Hp. apply member_key. destruct p as [v e]. pose proof (HC m Hm) as H1. now apply H1 in Hp.
     Qed.
 
     Lemma dedges_in s t e : In (s, t, e) des -> g_contains keqb g s = true /\ g_contains keqb g t = true.
@@ -636,14 +636,14 @@ Section SerdeProof.
         now apply pair_unique with (k := k).
     Qed.
 
-    Lemma kins_des k u : In (k, u) g -> Permutation (kins k des) (keyed h (ins h u)).
+    Lemma kins_des k u : ClosedIn h g -> In (k, u) g -> Permutation (kins k des) (keyed h (ins h u)).
     Proof.
-      intros Hin. assert (Hm : In u (members g)) by (change u with (snd (k, u)); now apply in_map).
+      intros HCi Hin. assert (Hm : In u (members g)) by (change u with (snd (k, u)); now apply in_map).
       assert (Hku : keyof h u = Some k) by now apply HG in Hin.
       unfold des. rewrite kins_flat_map.
       rewrite (flat_map_ext_in _ (fun m => map (fun p => (keyof h (fst p), snd p)) (map (fun e => (m, e)) (to_ m (ins h u))))).
       - rewrite <- map_flat_map. unfold keyed. apply Permutation_map. apply group_perm; [apply ms_nodup|].
-        intros [v e] Hp. cbn [fst]. apply ms_in. destruct (HC u Hm) as [_ H2]. now apply H2 in Hp.
+        intros [v e] Hp. cbn [fst]. apply ms_in. pose proof (HCi u Hm) as H2. now apply H2 in Hp.
       - intros m Hm'. apply ms_in in Hm'. destruct (member_key _ Hm') as (km & Hkm & Hkey).
         unfold dedges_of. rewrite Hkey, map_map. cbn [fst snd]. rewrite Hkey.
         destruct HI as (HM & _ & HInj). rewrite <- HM. apply kins_dedges. intros p Hp.
@@ -659,7 +659,7 @@ Section SerdeProof.
         (forall k u u', g_get keqb g k = Some u -> g_get keqb g' k = Some u' ->
            valof h' u' = valof h u /\
            keyed h' (outs h' u') = keyed h (outs h u) /\
-           Permutation (keyed h' (ins h' u')) (keyed h (ins h u))).
+           (ClosedIn h g -> Permutation (keyed h' (ins h' u')) (keyed h (ins h u)))).
     Proof.
       rewrite decompose_eq. cbn [fst snd]. fold ms. fold des.
       destruct (@rebuild_keyed (dnodes h ms) des dedges_decl) as (h' & g' & Hr & HI' & HG' & Hc & Hget).
@@ -670,7 +670,7 @@ Section SerdeProof.
         + rewrite Hval. apply dnodes_in in Hv. destruct Hv as (m & Hm & Hn).
           rewrite (pair_unique _ _ _ Hu Hm). unfold valof. now rewrite Hn.
         + rewrite Ho. now apply kouts_des.
-        + rewrite Hi. now apply kins_des.
+        + intros HCi. rewrite Hi. now apply kins_des.
     Qed.
   End Roundtrip.
 
@@ -748,7 +748,7 @@ Section SerdeProof.
     destruct (rebuild keqb n e) as [h g|k] eqn:Hr; [|now left]. right. exists h, g.
     apply rebuild_ok_inv in Hr. tauto.
   Qed.
-  Theorem roundtrip_directed : forall h g order, Inv h -> GraphOK h g -> Closed h g -> OrderOK g order ->
+  Theorem roundtrip_directed : forall h g order, Inv h -> GraphOK h g -> ClosedOut h g -> OrderOK g order ->
     exists h' g', rebuild keqb (fst (decompose keqb h g order)) (snd (decompose keqb h g order)) = DeOk h' g' /\ Inv h' /\ GraphOK h' g' /\
       (forall k, g_contains keqb g' k = g_contains keqb g k) /\
       (forall k u u', g_get keqb g k = Some u -> g_get keqb g' k = Some u' ->
@@ -769,10 +769,12 @@ Section SerdeProof.
          Permutation (map (fun p => (keyof h' (fst p), snd p)) (outs h' u' ++ ins h' u')) (map (fun p => (keyof h (fst p), snd p)) (outs h u ++ ins h u))).
   Proof.
     intros h g order HI HG HC HO.
-    destruct (roundtrip_common HI HG HC HO) as (h' & g' & Hr & HI' & HG' & Hc & Hget).
+    assert (HCo : ClosedOut h g) by (intros u Hu v e Hin; destruct (HC u Hu) as [H1 _]; now apply H1 in Hin).
+    assert (HCi : ClosedIn h g) by (intros u Hu v e Hin; destruct (HC u Hu) as [_ H2]; now apply H2 in Hin).
+    destruct (roundtrip_common HI HG HCo HO) as (h' & g' & Hr & HI' & HG' & Hc & Hget).
     exists h', g'. split; [exact Hr|]. split; [exact HI'|]. split; [exact HG'|]. split; [exact Hc|].
     intros k u u' Hu Hu'. destruct (Hget k u u' Hu Hu') as (H1 & H2 & H3). split; [exact H1|].
-    rewrite !map_app. apply Permutation_app; [|exact H3]. unfold keyed in H2. rewrite H2. apply Permutation_refl.
+    rewrite !map_app. apply Permutation_app; [|exact (H3 HCi)]. unfold keyed in H2. rewrite H2. apply Permutation_refl.
   Qed.
 End SerdeProof.
 
